@@ -393,7 +393,9 @@ func AlgProve(facts []*Term, goal *Term) (bool, string) {
 	// strategy 1: goal in the linear span of the assumed equalities/congruences
 	{
 		var fps []*Poly
-		for _, f := range flat {
+		// only facts sharing a variable with the goal (or with such a fact) can matter
+		rel := relevantFacts(flat, gx, 3)
+		for _, f := range rel {
 			x, m, ok := asCongruence(f)
 			if !ok {
 				continue
@@ -1160,4 +1162,61 @@ func stripMod(t *Term, gm *big.Int, memo map[int]*Term) *Term {
 	}
 	memo[t.id] = r
 	return r
+}
+
+// relevantFacts keeps the facts connected to the goal through shared free variables / UF atoms
+// within the given number of rounds.
+func relevantFacts(flat []*Term, goal *Term, rounds int) []*Term {
+	symsOf := func(t *Term) map[int]bool {
+		m := map[int]bool{}
+		walk(t, map[int]bool{}, func(x *Term) {
+			if x.op == OVar || (x.op == OUF && len(x.args) > 0) || x.op == OSelect {
+				m[x.id] = true
+			}
+		})
+		return m
+	}
+	cur := symsOf(goal)
+	taken := make([]bool, len(flat))
+	fs := make([]map[int]bool, len(flat))
+	var out []*Term
+	for r := 0; r < rounds; r++ {
+		added := false
+		for i, f := range flat {
+			if taken[i] {
+				continue
+			}
+			if _, _, ok := asCongruence(f); !ok {
+				taken[i] = true
+				continue
+			}
+			if fs[i] == nil {
+				fs[i] = symsOf(f)
+			}
+			hit := false
+			for id := range fs[i] {
+				if cur[id] {
+					hit = true
+					break
+				}
+			}
+			if hit {
+				taken[i] = true
+				out = append(out, f)
+				added = true
+			}
+		}
+		if !added {
+			break
+		}
+		for i, f := range flat {
+			_ = f
+			if taken[i] && fs[i] != nil {
+				for id := range fs[i] {
+					cur[id] = true
+				}
+			}
+		}
+	}
+	return out
 }
